@@ -248,6 +248,12 @@ func (vc *VC) invoke(f *Frame, n *Node, in ssa.Instruction, recv *SV, m *types.F
 	preReach := n.Reach
 	var known []string
 	for _, ct := range recv.Cands {
+		if sel := vc.eng.prog.MethodSets.MethodSet(ct).Lookup(m.Pkg(), m.Name()); sel == nil {
+			continue // cannot be the dynamic type of a value of this interface type
+		}
+		if it, ok := recv.T.Underlying().(*types.Interface); ok && !types.Implements(ct, it) {
+			continue
+		}
 		id := vc.eng.typeID(ct)
 		cnd := eq(recv.C[0], id)
 		known = append(known, cnd)
@@ -263,10 +269,18 @@ func (vc *VC) invoke(f *Frame, n *Node, in ssa.Instruction, recv *SV, m *types.F
 		n.done = false
 	}
 	if !recv.Exact {
-		n.St = pre.clone()
-		n.Reach = vc.def("Bool", and(preReach, not(or(known...))), "opaque")
-		res := vc.opaqueInvoke(f, n, in, recv, m, args)
-		alts = append(alts, alt{n.Reach, n.St, res})
+		oc := vc.def("Bool", and(preReach, not(or(known...))), "opaque")
+		if len(known) == 0 || !vc.infeasible(oc, "dynamic type outside the known candidates for "+m.Name()+f.wherei(in)) {
+			n.St = pre.clone()
+			n.Reach = oc
+			res := vc.opaqueInvoke(f, n, in, recv, m, args)
+			alts = append(alts, alt{n.Reach, n.St, res})
+		}
+	}
+	if len(alts) == 0 {
+		n.Reach = "false"
+		n.done = true
+		return vc.freshResults(sig, n.St, "dead")
 	}
 	if len(alts) == 1 {
 		n.Reach = vc.def("Bool", alts[0].cond, "r")
